@@ -271,7 +271,7 @@ impl Engine for ProcSim {
     fn runs(&self, tier: Tier) -> u64 {
         match tier {
             Tier::Quick => 5_000,
-            Tier::Thorough => 300_000,
+            Tier::Thorough => 500_000,
         }
     }
     fn heartbeat(&self) -> u64 {
